@@ -21,7 +21,9 @@ Extensions of the py2coq whitelist (everything else still raises Unsupported):
   be the name imported from `.exceptions`; nested `def` (the function object only; calling a
   local function is NOT whitelisted); expression statements and `self.<attr> = ...` whose
   value is a call `self.sio.<...>(<locals>)` (oracle `o_ext`; a later read of that attribute
-  is rejected); `{}`.
+  is rejected); `{}`; `asyncio.iscoroutine(e)`; `await <local>`; `try: ... except Exception: ...` with one
+  handler made of `self.sio.logger.<m>(<constants>)` calls and `<local> = <constant>` assignments that
+  cover every local the body assigns (no return / raise / nested def inside).
 
 `regenerate()` writes coq/Admin/Gen_admin.v; on any construct outside the whitelist it returns a
 message starting with 'ERROR', and removes Gen_admin.v and its .vo so that every proof over it
@@ -101,6 +103,13 @@ class AdminFn(FunctionTranslator):
             if e.keywords or len(e.args) != 1:
                 raise Unsupported(e, 'asyncio.iscoroutinefunction with other than one argument')
             return '(py_iscoroutinefunction o %s)' % self.expr(e.args[0], env)
+        # asyncio.iscoroutine(x)
+        if ch == ['asyncio', 'iscoroutine']:
+            if awaited or 'asyncio' not in self.info['imports'] or 'asyncio' in env:
+                raise Unsupported(e, 'asyncio.iscoroutine: asyncio is not the imported module, or awaited')
+            if e.keywords or len(e.args) != 1:
+                raise Unsupported(e, 'asyncio.iscoroutine with other than one argument')
+            return '(py_iscoroutine o %s)' % self.expr(e.args[0], env)
         if ch and ch[0] == 'self' and 'self' not in env:
             if len(ch) == 2:
                 # self.<attr>(...): a configured callable
@@ -118,7 +127,9 @@ class AdminFn(FunctionTranslator):
             self.n_await += 1
             if isinstance(e.value, ast.Call):
                 return self.call(e.value, env, True)
-            raise Unsupported(e, 'await of something other than a call')
+            if isinstance(e.value, ast.Name):
+                return '(py_await o %s)' % self.expr(e.value, env)
+            raise Unsupported(e, 'await of something other than a call or a local variable')
         if isinstance(e, ast.Call):
             return self.call(e, env, False)
         if isinstance(e, ast.Dict) and not e.keys:
@@ -169,6 +180,8 @@ class AdminFn(FunctionTranslator):
         if isinstance(s, ast.Raise):
             # like return: ends the path (py2coq duplicates what follows an `if` that contains one)
             return pad + self.raise_term(s, env)
+        if isinstance(s, ast.Try):
+            return self.try_stmt(s, rest, env, k, ind)
         if isinstance(s, (ast.FunctionDef, ast.AsyncFunctionDef)):
             for n in ast.walk(s):
                 if isinstance(n, (ast.Nonlocal, ast.Global)):
@@ -200,6 +213,58 @@ class AdminFn(FunctionTranslator):
             return '%s_ <- py_ext o %s [%s] ;;\n%s' % (pad, cstr('setattr:' + t.attr), term,
                                                        self.block(rest, env, k, ind))
         return super().block(stmts, env, k, ind)
+
+    def try_stmt(self, s, rest, env, k, ind):
+        """try: <assignments / ifs> except Exception: <log calls; flag = const>.
+        Exactly one handler, type `Exception`, no name, no else / finally; no return / raise inside.
+        The handler must assign every local the body assigns (so that a partially executed body is
+        not observable); locals are threaded like through an `if`."""
+        pad = '  ' * ind
+        if s.orelse or s.finalbody or len(s.handlers) != 1:
+            raise Unsupported(s, 'try with else / finally / several handlers')
+        h = s.handlers[0]
+        if not (isinstance(h.type, ast.Name) and h.type.id == 'Exception' and 'Exception' not in env) or h.name:
+            raise Unsupported(s, 'handler other than a bare `except Exception:`')
+        if self.info.get('rebinds_exception'):
+            raise Unsupported(s, 'the name Exception is rebound in the module')
+        if self.has_return([s]):
+            raise Unsupported(s, 'return / raise inside a try statement')
+        for n in ast.walk(s):
+            if isinstance(n, (ast.FunctionDef, ast.AsyncFunctionDef, ast.Lambda, ast.Try)) and n is not s:
+                raise Unsupported(n, 'nested function / try inside a try statement')
+        body_assigned = self.assigned(s.body)
+        top_handler = set()
+        for x in h.body:
+            if isinstance(x, ast.Assign) and len(x.targets) == 1 and isinstance(x.targets[0], ast.Name):
+                if not isinstance(x.value, ast.Constant):
+                    raise Unsupported(x, 'handler assigns something other than a constant')
+                top_handler.add(x.targets[0].id)
+            elif isinstance(x, ast.Expr) and isinstance(x.value, ast.Call):
+                ch = chain(x.value.func)
+                if not (ch and len(ch) == 4 and ch[:3] == ['self', 'sio', 'logger']):
+                    raise Unsupported(x, 'handler statement that is not self.sio.logger.<m>(...)')
+            else:
+                raise Unsupported(x, 'handler statement %s' % type(x).__name__)
+        if not body_assigned <= top_handler:
+            raise Unsupported(s, 'the handler does not assign every local the body assigns: %s'
+                              % sorted(body_assigned - top_handler))
+        live = sorted(v for v in (body_assigned | top_handler) if v in env)
+        if body_assigned - set(env):
+            raise Unsupported(s, 'the try body introduces a new local: %s' % sorted(body_assigned - set(env)))
+        if len(live) == 0:
+            tup, pat = 'tt', '_'
+        elif len(live) == 1:
+            tup, pat = vname(live[0]), vname(live[0])
+        else:
+            tup = '(%s)' % ', '.join(vname(v) for v in live)
+            pat = "'" + tup
+
+        def join(env2, ind2):
+            return '  ' * ind2 + 'Ok ' + tup
+        return ('%s%s <- py_try (\n%s\n%s) (\n%s\n%s) ;;\n%s' % (
+            pad, pat, self.block(list(s.body), env, join, ind + 1), pad,
+            self.block(list(h.body), env, join, ind + 1), pad,
+            self.block(rest, env, k, ind)))
 
     def translate(self):
         fn = self.fn
@@ -338,7 +403,7 @@ def module_info(tree):
         if isinstance(n, (ast.Assign, ast.FunctionDef, ast.ClassDef, ast.AsyncFunctionDef)):
             names = [n.name] if hasattr(n, 'name') else [t.id for t in n.targets if isinstance(t, ast.Name)]
             for nm in names:
-                if nm in ('asyncio', 'isinstance', 'dict', 'list') or nm in info['from_exceptions'] or nm in EXN:
+                if nm in ('asyncio', 'isinstance', 'dict', 'list', 'Exception') or nm in info['from_exceptions'] or nm in EXN:
                     raise Unsupported(n, 'module-level rebinding of %s' % nm)
     return info
 
